@@ -6,6 +6,7 @@ From SP Require Import Bytes Params Msgpack Crypto Errors Packets Chunker Rand V
 From SP Require Import BaseX Encodings Armor ArmorProofs ArmoredForms.
 From SP Require Import GoLang GoLang2 GoAst GoAstProofs GoAstProofs2 GoAstProofs3 GoAstProofs4a.
 From SP Require Import GoAstRecv.
+From SP Require Import Nonce GoAstSign GoAstProofs6b.
 From Coq Require String.
 Import String.StringSyntax.
 Import ListNotations.
@@ -159,6 +160,139 @@ Proof.
 Qed.
 Local Close Scope string_scope.
 
+(* ---- source ties: the SIGNCRYPTION SENDER (/repo/signcrypt_seal.go), lemmas of proofs/GoAstProofs6b.v ---- *)
+(* The terms f_saltpack_derivedEphemeralKeyFromBoxKeys, keyIdentifierFromDerivedKey, receiverBoxKey /
+   ReceiverSymmetricKey.makeReceiverKeys, checkSigncryptReceiverCount, checkSigncryptReceivers and
+   signcryptSealStream.{signcryptBlock, Write, Close, init} are generated on every run from the Go syntax trees
+   of /repo/signcrypt_seal.go (gen/GoAstSign.v) and run by the evaluator of model/GoLang2.v (run_func2: outcome
+   AND final environment) on ENCODED arguments.  A BoxPublicKey is its key bytes, a BoxSecretKey its secret
+   bytes, a ReceiverSymmetricKey is [g_sym (key, identifier)], a receiverKeysMaker [g_maker], a header entry
+   [g_entry].  The stream object is [g_sss st], st : sss_state = (version, encoder, encryptionKey, signingKey
+   (None = anonymous), unread bytes of sss.buffer, headerHash, numBlocks, err).  `encoder.Encode(x)` is
+   interpreted by an ARBITRARY function enc_step : encoder object -> packet bytes -> encoder object' * error,
+   so the theorems hold for every writer, failing or not; a Go error value is [g_errv e], e : gerr = None (nil)
+   or Some (name, arguments).  The specification functions sc_count_check, sc_check_outcome, sss_block,
+   sss_write, sss_close, sss_init are defined in GoAstProofs6b.v: the model's pieces (model/Signcrypt.v,
+   Chunker.v, Rand.v) in the order the code runs them. *)
+
+(* derivedEphemeralKeyFromBoxKeys(pk, sk) returns the model's derived_box_key sk pk.  Hypothesis: the box of the
+   32 zero bytes is 48 bytes long (crypto_ok.ok_sb_len; the code takes the LAST 32 bytes, the model drops the
+   first 16, and a shorter box makes the slice expression panic). *)
+Theorem C03_source_derivedEphemeralKeyFromBoxKeys (c : crypto) (pk sk : bytes) :
+  List.length (box_seal c sk pk nonce_derived_shared_key (zeros 32)) = 48%nat ->
+  fst (run_func2 (ext_sc c) f_saltpack_derivedEphemeralKeyFromBoxKeys [VBytes pk; VBytes sk])
+  = ORet [VBytes (derived_box_key c sk pk)].
+Proof. exact (go_derivedEphemeralKeyFromBoxKeys c pk sk). Qed.
+
+(* keyIdentifierFromDerivedKey(d, i) returns the model's box_key_identifier d i.  Hypothesis: that HMAC-SHA512
+   digest has at least 32 bytes (crypto_ok.ok_hmac_len; the code slices [0:32]). *)
+Theorem C03_source_keyIdentifierFromDerivedKey (c : crypto) (d : bytes) (i : N) :
+  (32 <= List.length (hmac512 c signcryption_boxkey_id_context (d ++ nonce_payload_key_box_v2 i)))%nat ->
+  fst (run_func2 (ext_sc c) f_saltpack_keyIdentifierFromDerivedKey [VBytes d; VInt (Z.of_N i)])
+  = ORet [VBytes (box_key_identifier c d i)].
+Proof. exact (go_keyIdentifierFromDerivedKey c d i). Qed.
+
+(* receiverBoxKey.makeReceiverKeys(ephemeralPriv, payloadKey, index) returns the header entry the model builds for a
+   box-key recipient (sc_receiver_entry .. (BoxRcpt pk)).  No hypothesis. *)
+Theorem C03_source_receiverBoxKey_makeReceiverKeys (c : crypto) (pk eph_sk payload_key : bytes) (i : N) :
+  fst (run_func2 (ext_sc c) f_saltpack_receiverBoxKey_makeReceiverKeys
+         [g_maker (BoxRcpt pk); VBytes eph_sk; VBytes payload_key; VInt (Z.of_N i)])
+  = ORet [g_entry (sc_receiver_entry c eph_sk (dh_pub c eph_sk) payload_key i (BoxRcpt pk))].
+Proof. exact (go_receiverBoxKey_makeReceiverKeys c pk eph_sk payload_key i). Qed.
+
+(* ReceiverSymmetricKey.makeReceiverKeys: the same for a symmetric-key recipient (SymRcpt key ident).
+   Hypothesis: the HMAC digest the key is derived from has at least 32 bytes (slice [0:32], as above). *)
+Theorem C03_source_ReceiverSymmetricKey_makeReceiverKeys (c : crypto) (key ident eph_sk payload_key : bytes) (i : N) :
+  (32 <= List.length (hmac512 c signcryption_symkey_context (dh_pub c eph_sk ++ key)))%nat ->
+  fst (run_func2 (ext_sc c) f_saltpack_ReceiverSymmetricKey_makeReceiverKeys
+         [g_maker (SymRcpt key ident); VBytes eph_sk; VBytes payload_key; VInt (Z.of_N i)])
+  = ORet [g_entry (sc_receiver_entry c eph_sk (dh_pub c eph_sk) payload_key i (SymRcpt key ident))].
+Proof. exact (go_ReceiverSymmetricKey_makeReceiverKeys c key ident eph_sk payload_key i). Qed.
+
+(* checkSigncryptReceiverCount(n1, n2) = sc_count_check n1 n2 for ALL integers: panic on a negative count,
+   ErrBadReceivers (a count or the sum above 2^32-1, or the sum not positive), or nil.  No hypothesis. *)
+Theorem C03_source_checkSigncryptReceiverCount (c : crypto) (z1 z2 : Z) :
+  fst (run_func2 (ext_sc c) f_saltpack_checkSigncryptReceiverCount [VInt z1; VInt z2]) = sc_count_check z1 z2.
+Proof. exact (go_checkSigncryptReceiverCount c z1 z2). Qed.
+
+(* checkSigncryptReceivers(boxes, syms) = sc_check_outcome boxes syms: nil / ErrBadReceivers / ErrRepeatedKey(kid)
+   exactly as the model's sc_check_receivers decides, the reported kid being the first repeated one (first_dup over
+   the box keys followed by the symmetric identifiers).  Both loops, the map-as-set idiom included.  No hypothesis. *)
+Theorem C03_source_checkSigncryptReceivers (c : crypto) (boxes : list bytes) (syms : list (bytes * bytes)) :
+  fst (run_func2 (ext_sc c) f_saltpack_checkSigncryptReceivers [VList (map VBytes boxes); VList (map g_sym syms)])
+  = sc_check_outcome boxes syms.
+Proof. exact (go_checkSigncryptReceivers c boxes syms). Qed.
+
+(* sss.signcryptBlock(isFinal) = sss_block: takes min(1 MiB, len) bytes off the buffer; panics iff isFinal and
+   bytes remain buffered; ErrPacketOverflow (only the buffer consumed) iff numBlocks = 2^64-1; else the packet
+   [secretbox(sig ++ chunk), final] (sig = 64 zero bytes for an anonymous sender, else ed_sign over
+   signcrypt_sig_input) under nonce_chunk_signcryption is handed to the encoder, its error returned, and on nil
+   numBlocks is incremented.  BStuck "extern" = assertEncodedChunkState panics.  The returned error AND the
+   receiver object.  No hypothesis: any crypto record c, writer enc_step, state st, flag. *)
+Theorem C03_source_signcryptBlock (c : crypto) (enc_step : gval -> bytes -> gval * gerr) (st : sss_state) (final : bool) :
+  let r := run_func2 (ext_blk c enc_step) f_saltpack_signcryptSealStream_signcryptBlock [g_sss st; VBool final] in
+  match sss_block c enc_step st final with
+  | BStuck w => fst r = OStuck w
+  | BPanic => fst r = OPanic
+  | BRet e st' => fst r = ORet [g_errv e] /\ lookup "sss" (snd r) = Some (g_sss st')
+  end.
+Proof. exact (go_signcryptBlock c enc_step st final). Qed.
+
+(* sss.Write(p) = sss_write: the sticky error is returned again with 0; else p is appended to the buffer and full
+   blocks are flushed by signcryptBlock(false) while more than 1 MiB is buffered; returns (len p, nil), or (0, err)
+   with err stored in sss.err.  Both results AND the receiver object.  No hypothesis: the 296 turns the evaluator
+   gives the loop are part of sss_write (WStuck "loop fuel" beyond; a bound on the EVALUATOR, not on the Go code). *)
+Theorem C03_source_signcryptSealStream_Write (c : crypto) (enc_step : gval -> bytes -> gval * gerr) (st : sss_state) (p : bytes) :
+  let r := run_func2 (ext_wr c enc_step) f_saltpack_signcryptSealStream_Write [g_sss st; VBytes p] in
+  match sss_write c enc_step st p with
+  | WStuck w => fst r = OStuck w
+  | WRet n e st' => fst r = ORet [VInt n; g_errv e] /\ lookup "sss" (snd r) = Some (g_sss st')
+  end.
+Proof. exact (go_signcryptSealStream_Write c enc_step st p). Qed.
+
+(* sss.Close() = sss_close: signcryptBlock(true), its error returned, else panic if bytes are left, else nil.
+   CloseStuck "call" = the callee signcryptBlock(true) panics or is stuck (more than one block still buffered; never
+   after Write).  The returned error AND the receiver object.  No hypothesis. *)
+Theorem C03_source_signcryptSealStream_Close (c : crypto) (enc_step : gval -> bytes -> gval * gerr) (st : sss_state) :
+  let r := run_func2 (ext_wr c enc_step) f_saltpack_signcryptSealStream_Close [g_sss st] in
+  match sss_close c enc_step st with
+  | CloseStuck w => fst r = OStuck w
+  | ClosePanic => fst r = OPanic
+  | CloseRet e st' => fst r = ORet [g_errv e] /\ lookup "sss" (snd r) = Some (g_sss st')
+  end.
+Proof. exact (go_signcryptSealStream_Close c enc_step st). Qed.
+
+(* sss.init(boxes, syms, ephemeralKeyCreator, rng) = sss_init: the error of checkSigncryptReceivers; else the three
+   draws in program order — shuffle of the receivers, ephemeral secret key (32 bytes of the creator's stream rb),
+   payload key (32 bytes of rk) — each ErrRand when its stream is short; panic for a signing key whose public key
+   is not 32 bytes long; else the payload key stored in sss.encryptionKey, the header sc_header_go (the model's
+   header: sender secretbox over the signer's public key or 32 zero bytes, entries sc_receiver_entry of the
+   receivers IN SHUFFLED ORDER with their indices), its SHA-512 stored in sss.headerHash, the header (as bin) handed
+   to the encoder and the encoder's error returned.  ra / rk are the stream positions the rng object's
+   shuffleReceivers / createSymmetricKey draw from; the statement gives what is LEFT in the two random sources,
+   i.e. the randomness consumed.  No hypothesis. *)
+Theorem C03_source_signcryptSealStream_init (c : crypto) (enc_step : gval -> bytes -> gval * gerr) (st : sss_state)
+        (boxes : list bytes) (syms : list (bytes * bytes)) (ra rk rb : bytes) :
+  let r := run_func2 (ext_init c enc_step) f_saltpack_signcryptSealStream_init
+             [g_sss st; VList (map VBytes boxes); VList (map g_sym syms); VBytes rb; g_rng ra rk] in
+  match sss_init c enc_step st boxes syms ra rk rb with
+  | IPanic => fst r = OPanic
+  | IRet e st' ra' rk' rb' =>
+    fst r = ORet [g_errv e] /\ lookup "sss" (snd r) = Some (g_sss st') /\
+    lookup "rng" (snd r) = Some (g_rng ra' rk') /\ lookup "ephemeralKeyCreator" (snd r) = Some (VBytes rb')
+  end.
+Proof. exact (go_signcryptSealStream_init c enc_step st boxes syms ra rk rb). Qed.
+
+Print Assumptions C03_source_derivedEphemeralKeyFromBoxKeys.
+Print Assumptions C03_source_keyIdentifierFromDerivedKey.
+Print Assumptions C03_source_receiverBoxKey_makeReceiverKeys.
+Print Assumptions C03_source_ReceiverSymmetricKey_makeReceiverKeys.
+Print Assumptions C03_source_checkSigncryptReceiverCount.
+Print Assumptions C03_source_checkSigncryptReceivers.
+Print Assumptions C03_source_signcryptBlock.
+Print Assumptions C03_source_signcryptSealStream_Write.
+Print Assumptions C03_source_signcryptSealStream_Close.
+Print Assumptions C03_source_signcryptSealStream_init.
 Print Assumptions C03_source_processHeader.
 Print Assumptions C03_source_tryBoxSecretKeys.
 Print Assumptions C03_source_trySharedSymmetricKeys.
